@@ -70,6 +70,7 @@ type fctx struct {
 	defers   []deferRec     // deferred delete(m, k) on local maps, applied at the merged exit
 	escaped  map[string]ast.Expr // pointers handed to abstract callees behind an interface (may be written later)
 	copiedPtr map[types.Object]bool // locals/fields that receive a COPY of an existing pointer in this function
+	counters  []*types.Var          // ghost event counters (one synthetic variable per `count` clause, same order)
 }
 
 type deferRec struct {
@@ -1585,6 +1586,12 @@ func (x *Exec) scopeAt(env *Env, pos token.Pos) *Scope {
 	file := cx.fi.Pkg.Types.Scope().Innermost(pos)
 	hidden := append([]types.Object{}, cx.hidden...)
 	sc.resolve = func(name string) (Term, bool) {
+		for k, cv := range cx.counters {
+			if cx.fc != nil && k < len(cx.fc.Counters) && cx.fc.Counters[k].Name == name {
+				v, ok := env.vars[cv]
+				return v, ok
+			}
+		}
 		if (name == "$i" || name == "$visited") && len(hidden) > 0 {
 			for k := len(hidden) - 1; k >= 0; k-- {
 				if hidden[k].Name() == name {
@@ -1809,6 +1816,8 @@ func (x *Exec) execFor(s *ast.ForStmt, env *Env, label string) *Env {
 	mod := assignedVars(info, s.Body, x.cx.closures)
 	x.aliasRoots(info, s.Body, mod)
 	x.sharedWriteMods(s.Body, env, mod)
+	x.counterMods(s.Body, mod)
+	x.counterMods(s.Body, mod)
 	if s.Post != nil {
 		for o := range assignedVars(info, s.Post, x.cx.closures) {
 			mod[o] = true
@@ -1859,6 +1868,7 @@ func (x *Exec) execRange(s *ast.RangeStmt, env *Env, label string) *Env {
 	mod := assignedVars(info, s.Body, x.cx.closures)
 	x.aliasRoots(info, s.Body, mod)
 	x.sharedWriteMods(s.Body, env, mod)
+	x.counterMods(s.Body, mod)
 	var keyObj, valObj types.Object
 	getObj := func(e ast.Expr) types.Object {
 		if e == nil {
@@ -2278,4 +2288,52 @@ func (x *Exec) returnOrdinal(r *ast.ReturnStmt) int {
 		return found == 0
 	})
 	return found
+}
+
+// counterMods: a loop whose body contains a call counted by a ghost counter modifies that counter.
+func (x *Exec) counterMods(body ast.Node, mod map[types.Object]bool) {
+	if x.cx == nil || x.cx.fc == nil || len(x.cx.counters) == 0 || body == nil {
+		return
+	}
+	ast.Inspect(body, func(n ast.Node) bool {
+		call, ok := n.(*ast.CallExpr)
+		if !ok {
+			return true
+		}
+		fn := x.calleeOf(call)
+		if fn == nil {
+			return true
+		}
+		for k, c := range x.cx.fc.Counters {
+			if k < len(x.cx.counters) && (c.Callee == fn.Name() || c.Callee == x.P.KeyOf(fn)) {
+				mod[x.cx.counters[k]] = true
+			}
+		}
+		return true
+	})
+}
+
+// countCall: updates the ghost counters that count this call.
+func (x *Exec) countCall(fn *types.Func, key string, call *ast.CallExpr, env *Env) {
+	if x.cx == nil || x.cx.fc == nil || len(x.cx.counters) == 0 || x.quiet > 0 || x.termMode {
+		return
+	}
+	for k, c := range x.cx.fc.Counters {
+		if k >= len(x.cx.counters) || (c.Callee != fn.Name() && c.Callee != key) {
+			continue
+		}
+		x.quiet++
+		sc := x.scopeAt(env, call.Pos())
+		for j, p := range c.Params {
+			if j < len(call.Args) {
+				sc.locals[p] = x.eval(call.Args[j], env)
+			}
+		}
+		cond := sc.EvalBool(c.When.Expr)
+		x.quiet--
+		cur := env.vars[x.cx.counters[k]]
+		nv := x.named(c.Name, Ite(cond, Arith("+", cur, IntLit(1)), cur))
+		nv.GoT = types.Typ[types.Int]
+		env.vars[x.cx.counters[k]] = nv
+	}
 }
